@@ -103,7 +103,9 @@ func (st *State) run() Value {
 func (st *State) callFunction(fn *ssa.Function, args []Value, site ssa.Value) Value {
 	name := fn.String()
 	if in, ok := st.w.intr[name]; ok {
-		return in(st, fn, args)
+		if v := in(st, fn, args); v != Value(fallThrough) {
+			return v
+		}
 	}
 	if fn.Pkg != nil && fn.Pkg.Pkg.Path() == "github.com/goccy/go-json/internal/verifrt" {
 		if fn.Signature.Recv() != nil {
@@ -991,10 +993,16 @@ func (st *State) lookup(in *ssa.Lookup) Value {
 	return st.loadBytes(st.c.Add(tm(a[0]), idx), 1)[0]
 }
 
+// fallThrough: returned by an intrinsic that declines (the real body runs).
+type fallThroughT struct{}
+
+var fallThrough = &fallThroughT{}
+
 type rangeIter struct {
 	isMap bool
 	m     *MapObj
 	str   []byte
+	strT  []*smt.Term // string with symbolic bytes (str is nil then)
 	pos   int
 	keys  []Value
 	vals  []Value
@@ -1013,8 +1021,65 @@ func (st *State) rangeInit(in *ssa.Range) Value {
 		}
 		return it
 	}
+	a := x.(Agg)
+	bs := st.seqBytes(tm(a[0]), tm(a[1]))
+	for _, b := range bs {
+		if !b.IsConst() {
+			return &rangeIter{strT: bs}
+		}
+	}
 	s := st.goString(x)
 	return &rangeIter{str: []byte(s)}
+}
+
+// nextSymbolicRune: one step of `for i, r := range s` over a string with
+// symbolic bytes: utf8.DecodeRuneInString decided by branching on the
+// byte-class conditions, the rune is an arithmetic term.
+func (st *State) nextSymbolicRune(it *rangeIter) Value {
+	c := st.c
+	if it.pos >= len(it.strT) {
+		return Agg{c.False, st.zero64, c.Const(0, 32)}
+	}
+	i := it.pos
+	k8 := func(v uint64) *smt.Term { return c.Const(v, 8) }
+	in := func(b *smt.Term, lo, hi uint64) *smt.Term { return c.BAnd(c.Ule(k8(lo), b), c.Ule(b, k8(hi))) }
+	z := func(b *smt.Term, mask uint64) *smt.Term { return c.Resize(c.And(b, k8(mask)), 32, false) }
+	sh := func(t *smt.Term, n uint64) *smt.Term { return c.Shl(t, c.Const(n, 32)) }
+	ret := func(r *smt.Term, size int) Value {
+		it.pos += size
+		return Agg{c.True, c.Const(uint64(i), 64), r}
+	}
+	b0 := it.strT[i]
+	if st.branch(c.Ult(b0, k8(0x80)), "rune-ascii") {
+		return ret(c.Resize(b0, 32, false), 1)
+	}
+	rest := len(it.strT) - i
+	if rest >= 2 {
+		b1 := it.strT[i+1]
+		if st.branch(c.BAnd(in(b0, 0xc2, 0xdf), in(b1, 0x80, 0xbf)), "rune-2") {
+			return ret(c.Or(sh(z(b0, 0x1f), 6), z(b1, 0x3f)), 2)
+		}
+		if rest >= 3 {
+			b2 := it.strT[i+2]
+			lead3 := c.BOr(c.BAnd(c.Eq(b0, k8(0xe0)), in(b1, 0xa0, 0xbf)),
+				c.BOr(c.BAnd(c.BOr(in(b0, 0xe1, 0xec), in(b0, 0xee, 0xef)), in(b1, 0x80, 0xbf)),
+					c.BAnd(c.Eq(b0, k8(0xed)), in(b1, 0x80, 0x9f))))
+			if st.branch(c.BAnd(lead3, in(b2, 0x80, 0xbf)), "rune-3") {
+				return ret(c.Or(c.Or(sh(z(b0, 0x0f), 12), sh(z(b1, 0x3f), 6)), z(b2, 0x3f)), 3)
+			}
+			if rest >= 4 {
+				b3 := it.strT[i+3]
+				lead4 := c.BOr(c.BAnd(c.Eq(b0, k8(0xf0)), in(b1, 0x90, 0xbf)),
+					c.BOr(c.BAnd(in(b0, 0xf1, 0xf3), in(b1, 0x80, 0xbf)),
+						c.BAnd(c.Eq(b0, k8(0xf4)), in(b1, 0x80, 0x8f))))
+				if st.branch(c.BAnd(lead4, c.BAnd(in(b2, 0x80, 0xbf), in(b3, 0x80, 0xbf))), "rune-4") {
+					r := c.Or(c.Or(sh(z(b0, 0x07), 18), sh(z(b1, 0x3f), 12)), c.Or(sh(z(b2, 0x3f), 6), z(b3, 0x3f)))
+					return ret(r, 4)
+				}
+			}
+		}
+	}
+	return ret(c.Const(0xfffd, 32), 1)
 }
 
 func (st *State) next(in *ssa.Next) Value {
@@ -1033,6 +1098,9 @@ func (st *State) next(in *ssa.Next) Value {
 		k, v := it.keys[it.pos], it.vals[it.pos]
 		it.pos++
 		return Agg{st.c.True, k, v}
+	}
+	if it.strT != nil {
+		return st.nextSymbolicRune(it)
 	}
 	if it.pos >= len(it.str) {
 		return Agg{st.c.False, st.zero64, st.c.Const(0, 32)}
